@@ -1613,15 +1613,11 @@ struct const_subarray : array_types<T, D, ElementPtr, Layout> {
 	constexpr auto addressof_aux_() const {return ptr(this->base_, this->layout());}
 
  public:
-	constexpr auto addressof()     && ->       ptr { return addressof_aux_(); }
-	constexpr auto addressof()      & ->       ptr { return addressof_aux_(); }
 	constexpr auto addressof() const& -> const_ptr { return addressof_aux_(); }
 
 	// NOLINTBEGIN(google-runtime-operator) //NOSONAR
 	// operator& is not defined for r-values anyway
-	constexpr auto operator&()     && { return addressof(); }  // NOLINT(runtime/operator) //NOSONAR
 	// [[deprecated("controversial")]]
-	constexpr auto operator&()      & { return addressof(); }  // NOLINT(runtime/operator) //NOSONAR
 	// [[deprecated("controversial")]]
 	constexpr auto operator&() const& { return addressof(); }  // NOLINT(runtime/operator) //NOSONAR
 	// NOLINTEND(google-runtime-operator)
